@@ -162,6 +162,12 @@ class Ctx:
         if pos < len(self.trail):
             e = self.trail[pos]; self.pos = pos + 1
             return e.cond
+        fp = self.forced_prefix
+        if fp is not None and pos < len(fp):
+            vals = fp[pos][1]
+            self.trail.append(Entry(vals, True, False, None, False, 'vals'))
+            self.pos = pos + 1
+            return vals
         self._ensure_model()
         vals = []
         self.solver.push()
@@ -223,4 +229,4 @@ class Ctx:
         return [e.choice for e in self.trail if e.kind not in ('assume', 'vals')]
 
     def trail_signature(self):
-        return [(e.kind, e.choice) for e in self.trail]
+        return [(e.kind, e.cond if e.kind == 'vals' else e.choice) for e in self.trail]
